@@ -219,12 +219,48 @@ pub fn install_panic_hook() {
 
 /// Runs `f`, converting a panic into Err("message @ file:line").
 pub fn caught<T>(f: impl FnOnce() -> T) -> Result<T, String> {
-    match panic::catch_unwind(AssertUnwindSafe(f)) {
+    let mine = crate::subj::default_ceiling_on();
+    let r = panic::catch_unwind(AssertUnwindSafe(f));
+    if mine {
+        crate::subj::default_ceiling_off();
+    }
+    match r {
         Ok(v) => Ok(v),
         Err(_) => Err(LAST_PANIC
             .with(|p| p.borrow_mut().take())
             .unwrap_or_else(|| "<panic>".to_string())),
     }
+}
+
+static OP_STARTED_MS: std::sync::atomic::AtomicU64 = std::sync::atomic::AtomicU64::new(0);
+static OP_WATCHDOG: std::sync::Once = std::sync::Once::new();
+
+fn now_ms() -> u64 {
+    use std::time::{SystemTime, UNIX_EPOCH};
+    SystemTime::now().duration_since(UNIX_EPOCH).map(|d| d.as_millis() as u64).unwrap_or(1)
+}
+
+/// Runs one operation of the subject under a wall-clock guard: a call that has not returned after `OP_LIMIT_S`
+/// seconds (a loop that passes no hook point, which only a changed library can contain) ends the process with
+/// abort(). The parent then treats the worker as crashed and finds the case through the journal, and the replay
+/// of that case is ended the same way, which counts as reproduced.
+pub fn guarded<T>(f: impl FnOnce() -> T) -> T {
+    use std::sync::atomic::Ordering::SeqCst;
+    const OP_LIMIT_S: u64 = 20;
+    OP_WATCHDOG.call_once(|| {
+        std::thread::spawn(|| loop {
+            std::thread::sleep(Duration::from_millis(250));
+            let st = OP_STARTED_MS.load(SeqCst);
+            if st != 0 && now_ms().saturating_sub(st) > OP_LIMIT_S * 1000 {
+                eprintln!("an operation of the subject has been running for more than {} s: no termination, ending this process", OP_LIMIT_S);
+                std::process::abort();
+            }
+        });
+    });
+    OP_STARTED_MS.store(now_ms(), SeqCst);
+    let r = f();
+    OP_STARTED_MS.store(0, SeqCst);
+    r
 }
 
 /// "file:line" part of a caught panic string (stable part of a signature)
